@@ -8,7 +8,7 @@ use cranelift::{
         StackSlotKind, TrapCode, Value, Variable, types,
     },
 };
-use cranelift_module::{DataDescription, DataId, FuncId, Linkage, Module};
+use cranelift_module::{DataDescription, DataId, FuncId, FuncOrDataId, Linkage, Module};
 use debug::debug;
 use hir::common::*;
 use hir::{LocalDef, ScopeId, SwitchArg};
@@ -2328,12 +2328,19 @@ impl FunctionCompiler<'_> {
                             }
                         }
                         ComptimeResult::Data(bytes) => {
-                            let data = self.create_global_data(
-                                &ctc.to_mangled_name(self.mod_dir, self.interner),
-                                false,
-                                bytes.clone(),
-                                ty.align() as u64,
-                            );
+                            let name = ctc.to_mangled_name(self.mod_dir, self.interner);
+
+                            // the same comptime block might get compiled more than once
+                            // (e.g. when it's inside of a defer that runs on several exits)
+                            let data = match self.module.get_name(&name) {
+                                Some(FuncOrDataId::Data(data)) => data,
+                                _ => self.create_global_data(
+                                    &name,
+                                    false,
+                                    bytes.clone(),
+                                    ty.align() as u64,
+                                ),
+                            };
 
                             let local_id =
                                 self.module.declare_data_in_func(data, self.builder.func);
